@@ -414,10 +414,17 @@ def exactness(s, mg):
     n = 6 if s.tier == "quick" else 150
     evals, distinct, fails = 0, 0, []
     hermite_seen = akima_seen = False
-    for trial in range(n):
-        nv = int(rnd.randint(6, 13))
-        vmax = float(rnd.uniform(150, 900))
-        V = numpy.linspace(vmax, vmax * rnd.uniform(0.6, 0.8), nv)
+    for trial2 in range(2 * n):
+        trial, layout = divmod(trial2, 2)
+        if layout == 0:
+            nv = int(rnd.randint(6, 13))
+            vmax = float(rnd.uniform(150, 900))
+            vmin = vmax * rnd.uniform(0.6, 0.8)
+            V = numpy.linspace(vmax, vmin, nv)
+        else:
+            # same number of volumes and same end points, different interior nodes (uniform in ln V), in the SAME process:
+            # a result that depends on an earlier call (a cached factorisation, reused nodes) is not exact here
+            V = numpy.exp(numpy.linspace(numpy.log(vmax), numpy.log(vmin), nv))
         ratio = 1.2
         grid = numpy.linspace(V.max() * ratio, V.min() / ratio, 31)
         w0, g0 = float(rnd.uniform(30, 1500)), float(rnd.uniform(-1, 3))
@@ -475,7 +482,7 @@ def exactness(s, mg):
                 break
         if fails:
             break
-    s.bounded_standin("C11.exactness(real scipy)", "%d random power-law tables (6-12 volumes, V_max 150-900, gamma -1..3) x 7 methods x admissible orders, grid extended by 1.2; "
+    s.bounded_standin("C11.exactness(real scipy)", "%d random power-law tables (6-12 volumes, V_max 150-900, gamma -1..3; each followed in the same process by a table with the same end points and count but nodes uniform in ln V) x 7 methods x admissible orders, grid extended by 1.2; "
                       "log-polynomial tables for lsq_poly orders 1-5; tolerances 1e-6 / 1e-5 / 5e-3; seed %d" % (n, s.seed), evals, distinct, fails,
                       [MG + "interpolate_mode_*"])
     s.notes["hermite_raises_in_exactness_runs"] = hermite_seen
